@@ -1,5 +1,5 @@
 // Adaptor binding Buf.tla: one Go-supplied, guard-byte-surrounded buffer with a fixed family of views.
-var VIEWDEF = [["u8",0,8],["u8",2,4],["i8",1,3],["u16",2,2],["i16",0,4],["u32",4,1],["u8c",3,2],["f64",0,1],["f32",4,1],["u16",4,1]];
+var VIEWDEF = [["u8",0,8],["u8",2,4],["i8",1,3],["u16",2,2],["i16",0,4],["u32",4,1],["u8c",3,2],["f64",0,1],["f32",4,1],["u16",4,1],["i8",2,2]];
 var CT = {u8: Uint8Array, i8: Int8Array, u8c: Uint8ClampedArray, u16: Uint16Array, i16: Int16Array, u32: Uint32Array, f32: Float32Array, f64: Float64Array};
 var ESZ = {u8: 1, i8: 1, u8c: 1, u16: 2, i16: 2, u32: 4, f32: 4, f64: 8};
 var BUF, TA, DVW, NOPS;
@@ -70,6 +70,20 @@ function step(l) {
         case "indexOf": t.indexOf(11, D(0)); break;
         case "join": t.join(D(0)); break;
         case "reverse-getter": t.forEach(function() { __detach(BUF); }); t.reverse; break;
+        case "toLocaleString":
+          var nls = Number.prototype.toLocaleString;
+          Number.prototype.toLocaleString = function() { __detach(BUF); return "x"; };
+          try { t.toLocaleString(); } finally { Number.prototype.toLocaleString = nls; }
+          break;
+        case "every": t.every(function() { __detach(BUF); return true; }); break;
+        case "some": t.some(function() { __detach(BUF); return false; }); break;
+        case "find": t.find(function() { __detach(BUF); return false; }); break;
+        case "findLast": if (t.findLast) t.findLast(function() { __detach(BUF); return false; }); break;
+        case "reduce": t.reduce(function(a, x) { __detach(BUF); return a; }, 0); break;
+        case "reduceRight": t.reduceRight(function(a, x) { __detach(BUF); return a; }, 0); break;
+        case "lastIndexOf": t.lastIndexOf(1, D(-1)); break;
+        case "includes": t.includes(1, D(0)); break;
+        case "forEach-set": t.forEach(function(x, i) { __detach(BUF); t[i] = 1; t.fill(2); }); break;
         }
       } catch (e) { if (!(e instanceof TypeError) && !(e instanceof RangeError)) throw e; }
       __detach(BUF);       // (a comparator / callback may never have run on a short view)
